@@ -900,6 +900,23 @@ static void build(vf::Plan &plan, const vf::Opts &o)
                        return strf("%s: %zu ASCII bytes, then %s, then 'z'", how == 0 ? "format {} with a std::string argument" : "format string made of the literal",
                                    t.size() - 1 - (t.size() > 1 ? 0 : 0), "one multi-byte character");
                    });
+        // two pieces: a first piece of every length, then a second piece of a few lengths (growth of the assembling
+        // buffer is decided by the pair (held, added), not by the total alone)
+        const unsigned N1MAX = th ? 4200 : 1100;
+        static const unsigned N2[6] = {1, 40, 257, 450, 513, 1030};
+        plan.stage(strf("format:two string arguments, first of every length 0..%u, second of {1,40,257,450,513,1030}, as {}{} and {}{>n2} padding, all sinks", N1MAX),
+                   (uint64_t)2 * 6 * (N1MAX + 1),
+                   [](uint64_t i, Ctx &c) {
+                       unsigned how = (unsigned)vf::take(i, 2), n2 = N2[vf::take(i, 6)];
+                       std::string a((size_t)i, 'A');
+                       if (how == 0) run_case(c, "{}{}", a, std::string(n2, 'b'));
+                       else run_case(c, strf("{}{>%u}", n2), a, 7);
+                       c.nontrivial();
+                   },
+                   [](uint64_t i) {
+                       unsigned how = (unsigned)vf::take(i, 2), n2 = N2[vf::take(i, 6)];
+                       return how == 0 ? strf("format {}{} with strings of %zu and %u bytes", (size_t)i, n2) : strf("format {}{>%u} with a string of %zu bytes and 7", n2, (size_t)i);
+                   });
         const unsigned IMAX = th ? 4200 : 1100;
         plan.stage(strf("insert:long strings, a 2-/3-/4-byte character at every offset 0..%u, into 4 stream types", IMAX), (uint64_t)3 * (IMAX + 1),
                    [](uint64_t i, Ctx &c) {
